@@ -70,7 +70,7 @@ T = {
         ref="4/C11",
     ),
     "C12": dict(
-        technique="static analysis: rank abstract interpretation, parallel-array consistency, parameter-provenance dataflow, growth-idiom recognition (fill / copy bound / guard agreement relative to the increment order), effect sets, sympy term identity, parameter roles read off the stores, integer-truncation lint on the merge",
+        technique="static analysis: rank abstract interpretation, parallel-array consistency, parameter-provenance dataflow, growth-idiom recognition (fill / copy bound / guard agreement relative to the increment order), effect sets, sympy term identity, parameter roles read off the stores, integer-truncation lint on the merge, look-up range of the duplicate scan, in-place-operation lint on views of the log tables",
         text="Decides the structure of the record routine on all paths: row index from a rank-1 mask, one index per path, parameters stored unchanged, growth covers exactly the per-row arrays, no-record path writes only counters/timing, merge is the precision-weighted mean, n_evals advances once per path.",
         note="Trusted: numpy argwhere/append semantics.",
         ref="4/C12",
@@ -112,13 +112,13 @@ T = {
         ref="4/C18",
     ),
     "C19": dict(
-        technique="static analysis: store-group (incumbent tuple) coherence, record-block index agreement, deep-copy setter check, result source table, must-definition dataflow of the result fields over exceptional edges, may-alias analysis of the stored x0, finite-domain evaluation of the result labels, item-setter bypass lint",
+        technique="static analysis: store-group (incumbent tuple) coherence, record-block index agreement, deep-copy setter check, result source table, must-definition dataflow of the result fields over exceptional edges, may-alias analysis of the stored x0, finite-domain evaluation of the result labels, item-setter bypass lint over the whole result class, must-dataflow (gen/preserve method summaries) for the coherence of a cached original-space incumbent",
         text="Decides that value/estimate/SD and the point the next iteration reads move together from the same history index, that one record block with one index records each iteration with x = inverse(u), that history/result setters deep-copy and reject unknown keys, that result fields read their designated state locations, and that the field set is the same on every path.",
         note="Trusted: copy.deepcopy semantics.",
         ref="4/C19",
     ),
     "C20": dict(
-        technique="static analysis: guard/dominance analysis of the options loader, ini reader, who-may-write options table, alias + in-place store analysis, key-identity check of the options container, load order of option files with derived defaults",
+        technique="static analysis: guard/dominance analysis of the options loader, ini reader, who-may-write options table, alias + in-place store analysis, key-identity check of the options container, load order of option files with derived defaults, membership test of option names on the key as given",
         text="Decides that loader writes are guarded by the protected-names set filled before the second file loads, name validation post-dominates loading, evaluation parameters are exec'd before every eval loop with no deferred use, every store into options outside the loader is a classified site, and no in-place store goes through an alias of a caller array or the caller's dict.",
         note="Known finding (recorded): in-place write into the caller's plausible bounds on the multi-row-x0 path.",
         ref="4/C20",
